@@ -1,12 +1,13 @@
 (* C08 dispatch.  Postcondition ops receive  args ++ [[-7777]] ++ impl output  (".post") or the impl output
    (".post1") and return [[1]] when the output is admissible.
-     c08.outcome.post1      [[code];[ncols];[panic class]]            1 iff code is Ok(0) or Err(1)
+     c08.outcome.post       [[kind];[bytes];[aux]] / [[code];[ncols];[panic class]]   1 iff code is Ok(0) or Err(1)
      c08.thrift_meta(.post) [[bytes]]     meta_probe: Ok -> [[0];[version];[rows];[has created_by];[created_by];[0]], Err k -> [[-1;k]]
      c08.schema_probe(.post)[[bytes]]     schema_probe; when the schema list is the canonical suffix: [[0];[1];"r";"a"]
      c08.avro_longs(.post)  [[bytes]]     read_blocks: [[0];vals] | [[-1;3]] | panic [[2]..] | hang [[3]..]
      c08.ipc_batch(.post)   [[type codes];[nodes];[buffers];[body len];[length]]
-     c08.knownclass         [[kind];[bytes];[aux]]  -> [[1]] iff a Parquet input whose footer declares a list count
-                            beyond 2^20 and beyond the bytes that follow it (thrift pre-allocation finding), else [[0]] *)
+     c08.knownclass         args ++ [[-7777]] ++ outcome -> [[1]] iff the outcome is Abort on a Parquet input whose footer declares
+                            a list count beyond 2^20 and beyond the bytes that follow it (thrift pre-allocation finding);
+                            [[10+i]] iff the outcome is a panic of the i-th known class; else [[0]] *)
 From Coq Require Import List ZArith NArith String Bool.
 From AV Require Import Base.Codec Model.C08_Thrift Model.C08_Avro Model.C08_Ipc.
 Import ListNotations.
@@ -27,8 +28,8 @@ Definition post (f : args -> list (list Z) -> bool) (a : args) : list (list Z) :
   let (x, out) := split_post a [] in [[zb (f x out)]].
 Definition out_code (out : list (list Z)) : Z := hd (-9)%Z (hd [] out).
 
-Definition p_outcome (a : args) : list (list Z) :=
-  let c := out_code a in [[zb (Z.eqb c 0 || Z.eqb c 1)]].
+Definition p_outcome (x out : list (list Z)) : bool :=
+  let c := out_code out in Z.eqb c 0 || Z.eqb c 1.
 
 (* ---- thrift *)
 Definition enc_mres (m : mres) : option (list (list Z)) :=
@@ -82,13 +83,13 @@ Fixpoint pairs (l : list Z) : list (Z * Z) :=
 Definition ipc_event (a : args) : ev :=
   fst (walk_fields (map fty_of_code (arg 0 a)) (argz 3 a) {| nodes := pairs (arg 1 a); bufs := pairs (arg 2 a) |}).
 Definition m_ipc_batch (a : args) : list (list Z) :=
-  match ipc_event a with Pass => [[0%Z]] | CursorErr => [[1%Z]] | NullLenErr => [[1%Z]] | BoundsPanic => [[2%Z]] end.
+  match ipc_event a with Pass => [[0%Z]] | CursorErr => [[1%Z]] | NullLenErr => [[1%Z]] | BoundsPanic | ValidityPanic => [[2%Z]] end.
 Definition p_ipc_batch (x out : list (list Z)) : bool :=
   let c := out_code out in
   match ipc_event x with
   | Pass => Z.eqb c 0 || Z.eqb c 1
   | CursorErr | NullLenErr => Z.eqb c 1
-  | BoundsPanic => Z.eqb c 2 || Z.eqb c 1
+  | BoundsPanic | ValidityPanic => Z.eqb c 2 || Z.eqb c 1
   end.
 
 (* ---- known-finding classifier *)
@@ -99,15 +100,44 @@ Definition pq_footer (bs : list N) : list N :=
   if (n <? 12)%nat then [] else
   let len := le32 (skipn (n - 8) bs) in
   if (N.of_nat n <? len + 8)%N then [] else firstn (N.to_nat len) (skipn (n - 8 - N.to_nat len) bs).
+(* panic classes (source file | message prefix, as produced by the harness) of the known findings, with the reader
+   kinds (0 ipc file, 1 ipc stream, 2 ipc stream decoder, 3 parquet arrow reader, 4 parquet metadata, 5 parquet footer,
+   6 avro, 7 csv, 8 json, 9 variant, 10 flight, 11 parquet row iterator) they were observed through; kind = 10 + index *)
+Definition ascii_bytes (s : string) : list Z := map (fun c => Z.of_nat (Ascii.nat_of_ascii c)) (list_ascii_of_string s).
+Definition ipc_kinds : list Z := [0; 1; 2; 10]%Z.
+Definition pq_kinds : list Z := [3; 4; 5; 11]%Z.
+Definition known_panic_classes : list (string * list Z) := [
+  ("arrow-buffer/src/buffer/immutable.rs|the offset of the new Buffer cannot exceed the e", ipc_kinds);
+  ("arrow-buffer/src/buffer/boolean.rs|buffer not large enough (bit_offset:", ipc_kinds);
+  ("arrow-ipc/src/reader.rs|called `Option::unwrap()` on a `None` value", ipc_kinds);
+  ("arrow-ipc/src/reader.rs|assertion failed: variadic_counts.is_empty()", ipc_kinds);
+  ("parquet/src/file/metadata/mod.rs|column start and length should not be negative", pq_kinds);
+  ("arrow-buffer/src/util/bit_chunk_iterator.rs|offset + len out of bounds", pq_kinds)
+].
+Fixpoint class_index (k : Z) (cls : list Z) (tbl : list (string * list Z)) (i : Z) : Z :=
+  match tbl with
+  | [] => 0%Z
+  | (s, ks) :: r => if zl_eqb cls (ascii_bytes s) && existsb (Z.eqb k) ks then i else class_index k cls r (i + 1)%Z
+  end.
+(* kinds: 1 thrift list pre-allocation (abort, parquet); 2 declared-length allocation in the IPC readers (abort);
+   3 Avro OCF reader no-progress loop (timeout); 10+i panic class i; 0 unknown *)
+Definition classify (x out : list (list Z)) : Z :=
+  let k := argz 0 x in
+  let bs := bytes_of (arg 1 x) in
+  let c := out_code out in
+  if Z.eqb c 4 then
+    (if Z.eqb k 5 then zb (has_oversize_list bs)
+     else if existsb (Z.eqb k) pq_kinds then zb (has_oversize_list (pq_footer bs))
+     else if existsb (Z.eqb k) ipc_kinds then 2%Z
+     else 0%Z)
+  else if Z.eqb c 3 then (if Z.eqb k 6 then 3%Z else 0%Z)
+  else if Z.eqb c 2 then class_index k (nth 2 out []) known_panic_classes 10%Z
+  else 0%Z.
 Definition m_knownclass (a : args) : list (list Z) :=
-  let k := argz 0 a in
-  let bs := bytes_of (arg 1 a) in
-  if Z.eqb k 5 then [[zb (has_oversize_list bs)]]
-  else if Z.eqb k 3 || Z.eqb k 4 || Z.eqb k 11 then [[zb (has_oversize_list (pq_footer bs))]]
-  else [[0%Z]].
+  let (x, out) := split_post a [] in [[classify x out]].
 
 Definition ops_C08 : list (string * opfun) := [
-  ("c08.outcome.post1", p_outcome);
+  ("c08.outcome.post", post p_outcome);
   ("c08.thrift_meta", m_thrift_meta); ("c08.thrift_meta.post", post p_thrift_meta);
   ("c08.schema_probe", m_schema_probe); ("c08.schema_probe.post", post p_schema_probe);
   ("c08.avro_longs", m_avro_longs); ("c08.avro_longs.post", post p_avro_longs);
